@@ -206,6 +206,12 @@ impl GenerationPass for AvailableValuePass {
                                     curr_stack.wrapping_add(store.imm.get().value()),
                                 );
                                 map.retain(|location, _| *location != slot);
+                            } else {
+                                // The stack pointer's position is not known: the store may
+                                // hit any slot
+                                map.retain(|location, _| {
+                                    !matches!(location, MemoryLocation::StackOffset(_))
+                                });
                             }
                         }
                     }
